@@ -281,6 +281,97 @@ theorem C10_oracle_consumption (v : Variant) (gs : List Goal) (skip : Int → Bo
     simp only [hsv]
     rfl
 
+/-! ### several `optimize()` calls on the same instance -/
+
+/-- **What is exposed after the k-th call**: the cache of run `k` itself (its last successful
+    priority) if run `k` completed a priority; otherwise the base class — the failed solve of run
+    `k`, or, only when run `k` never called the solver, the output of the most recent earlier
+    solver call.  The results cache and flag carried over from earlier runs (`st.results`,
+    `st.current`) do not occur on the right-hand side. -/
+theorem C10_run_exposure (v : Variant) (k : Nat) (st : Persist) (r : RunSpec) :
+    exposedS (runOnce v true k st r).1 =
+      match lastOk (solvesOf (optimize v r.gs r.skip r.oracle).events) with
+      | some p => .cached k p
+      | none =>
+        match (solvesOf (optimize v r.gs r.skip r.oracle).events).getLast? with
+        | some (p, ok) => .raw k p ok
+        | none =>
+          match st.lastRaw with
+          | some (j, p, ok) => .raw j p ok
+          | none => .nothing := by
+  obtain ⟨hc, hr⟩ := optimize_cache_raw v r.gs r.skip r.oracle
+  unfold runOnce exposedS
+  simp only [if_true]
+  rw [hc, hr]
+  cases lastOk (solvesOf (optimize v r.gs r.skip r.oracle).events) with
+  | some p => simp
+  | none =>
+    simp only [Bool.false_eq_true, if_false]
+    cases (solvesOf (optimize v r.gs r.skip r.oracle).events).getLast? with
+    | some x => obtain ⟨p, ok⟩ := x; rfl
+    | none => rfl
+
+/-- **Runs are independent**: in any sequence of `optimize()` calls on one instance, the log and
+    return value of the i-th call are those of a single call with that call's goals, hook and
+    solver outcomes (so every theorem above holds per call), and if cached results are exposed
+    after the i-th call they were captured IN the i-th call, at its last successful priority — the
+    cache of an earlier call is never exposed by a later one; the `AttributeError` branch is
+    never reached. -/
+theorem C10_runs_independent (v : Variant) (rs : List RunSpec) (i : Nat) (hi : i < rs.length) :
+    ((optimizeSeq v rs)[i]'(by unfold optimizeSeq; rw [seqFrom_length]; exact hi)).1
+        = optimize v rs[i].gs rs[i].skip rs[i].oracle ∧
+    ((optimizeSeq v rs)[i]'(by unfold optimizeSeq; rw [seqFrom_length]; exact hi)).2 ≠ .broken ∧
+    ∀ j p, ((optimizeSeq v rs)[i]'(by unfold optimizeSeq; rw [seqFrom_length]; exact hi)).2 = .cached j p →
+      j = i ∧ lastOk (solvesOf (optimize v rs[i].gs rs[i].skip rs[i].oracle).events) = some p := by
+  obtain ⟨sti, h⟩ := seqFrom_get v true rs 0 Persist.init i hi
+  unfold optimizeSeq
+  rw [h]
+  simp only [Nat.zero_add]
+  have hx := C10_run_exposure v i sti rs[i]
+  refine ⟨rfl, ?_, ?_⟩
+  · rw [hx]
+    cases lastOk (solvesOf (optimize v rs[i].gs rs[i].skip rs[i].oracle).events) with
+    | some p => simp
+    | none =>
+      cases (solvesOf (optimize v rs[i].gs rs[i].skip rs[i].oracle).events).getLast? with
+      | some x => obtain ⟨p, ok⟩ := x; simp
+      | none =>
+        cases sti.lastRaw with
+        | some y => obtain ⟨a, b, c⟩ := y; simp
+        | none => simp
+  · intro j p hj
+    rw [hx] at hj
+    cases hl : lastOk (solvesOf (optimize v rs[i].gs rs[i].skip rs[i].oracle).events) with
+    | some q =>
+      rw [hl] at hj
+      simp only [ExposedS.cached.injEq] at hj
+      exact ⟨hj.1.symm, by rw [hj.2]⟩
+    | none =>
+      rw [hl] at hj
+      cases hg : (solvesOf (optimize v rs[i].gs rs[i].skip rs[i].oracle).events).getLast? with
+      | some x => obtain ⟨a, ok⟩ := x; rw [hg] at hj; simp at hj
+      | none =>
+        rw [hg] at hj
+        cases hs : sti.lastRaw with
+        | some y => obtain ⟨a, b, c⟩ := y; rw [hs] at hj; simp at hj
+        | none => rw [hs] at hj; simp at hj
+
+private def oneGoal : List Goal := [⟨1, ⟨false, [XVal.nan]⟩, ⟨false, [XVal.nan]⟩⟩,
+                                     ⟨2, ⟨false, [XVal.nan]⟩, ⟨false, [XVal.nan]⟩⟩]
+
+/-- **The reset at the start of `optimize()` is not redundant** (witness about the variant
+    without `self.__results_are_current = False` before the loop): run 0 completes priorities 1 and
+    2, run 1 fails at its first priority — the variant still exposes run 0's cache, the code
+    exposes the failed solve of run 1. -/
+theorem C10_reset_not_redundant_witness :
+    ((seqFrom .multiPass false 0 Persist.init
+        [⟨oneGoal, fun _ => false, scriptOracle []⟩, ⟨oneGoal, fun _ => false, scriptOracle [false]⟩]).map
+          (·.2)) = [.cached 0 2, .cached 0 2] ∧
+    ((optimizeSeq .multiPass
+        [⟨oneGoal, fun _ => false, scriptOracle []⟩, ⟨oneGoal, fun _ => false, scriptOracle [false]⟩]).map
+          (·.2)) = [.cached 0 2, .raw 1 1 false] := by
+  constructor <;> decide +kernel
+
 /-! ### non-vacuity: a concrete goal set (negative, duplicate, non-integral priorities, an empty goal) -/
 
 private def nanT : Target := ⟨false, [XVal.nan]⟩
